@@ -65,11 +65,18 @@ UNPROVED = [
     "perfect_estimate_sources/images, sourceCritExact_perfect, decompExact_perfect, bestPerm_identity_of_dominant)",
     "the FFT-based computation of G and D, np.linalg.solve and fftconvolve equal the exact Gram matrix / solution / "
     "combination (correspondence ls_project incl. the G, D handed to np.linalg.solve; not proved: no binary64 model)",
-    "exact model of _project_images (per-channel projectOn on all delayed reference channels) and the image "
-    "criteria on it: executable and tied by correspondence (ls_images), no separate theorems (projectOn's apply "
-    "channel by channel)",
-    "solveAny? always succeeds on normal equations (they are consistent); only its soundness is proved",
-    "argmax of mean SIR in dB = argmax of the product of SIR ratios (log monotone; Float-free model choice)",
+    "exact model of _project_images: per-channel theorems (projectImages_channelwise, _normal_equations, "
+    "_least_squares, _homogeneous); the IMAGE criteria on it (imageCritExact, decompImagesExact) are executable and "
+    "tied by correspondence (ls_images), no separate theorems",
+    "the lstsq fall-back model is total and a least-squares minimiser for ALL inputs (solveAny_isSome_iff, "
+    "normal_equations_consistent, solveAny_normal_equations, projectAny_total, projectAny_least_squares) and returns "
+    "the signal of ANY exact solution of the normal equations, np.linalg.lstsq's minimum-norm one included "
+    "(projectAny_eq_of_solution); that lstsq's binary64 output is such a solution to 1e-9 is compared "
+    "(project_lstsq_exact), not proved; the criteria theorems (sourceCritExact_*) are stated for the non-singular "
+    "path only, where a singular Gram matrix is outside the model's domain",
+    "argmax of mean SIR in dB = argmax of the product of SIR ratios: proved over the reals for positive ratios "
+    "(bestPermMul_is_first_argmax_db, mean_db_le_iff_prod_le); binary64 near-ties between permutations are outside "
+    "any proof (the stub suites generate exact ties on purpose and compare)",
 ]
 
 SENT = 424242.0  # what a poisoned np.empty is filled with (Mir.Separation.uninitSentinel)
